@@ -9,6 +9,7 @@ import (
 	"database/sql"
 	"errors"
 	"fmt"
+	"regexp"
 	"sort"
 	"strings"
 	"time"
@@ -273,10 +274,9 @@ func modelFiles(d migrate.Dir) ([]MFile, error) {
 			st = []string{}
 		}
 		h, _ := sum.SumByName(f.Name())
-		ck := false
-		if c, ok := f.(migrate.CheckpointFile); ok && c.IsCheckpoint() {
-			ck = true
-		}
+		// whether the file is a checkpoint is read off its bytes here (not asked from the implementation): the
+		// header is the run of comment lines at the top of the file
+		ck := headerHasDirective(f.Bytes(), "checkpoint")
 		out = append(out, MFile{N: f.Name(), V: f.Version(), D: f.Desc(), S: st, Ck: ck, H: h})
 	}
 	return out, nil
@@ -395,4 +395,21 @@ func canon(a AttemptOut) string {
 		}
 	}
 	return hxJSON(a)
+}
+
+var reHeaderDirective = regexp.MustCompile(`^(?:--|#)\s*atlas:(\w+)`)
+
+// headerHasDirective: the file's header (the comment lines it starts with, up to the first other line) holds
+// the directive `atlas:<name>`.
+func headerHasDirective(b []byte, name string) bool {
+	for _, l := range strings.Split(string(b), "\n") {
+		l = strings.TrimRight(l, "\r")
+		if !strings.HasPrefix(l, "--") && !strings.HasPrefix(l, "#") {
+			return false
+		}
+		if m := reHeaderDirective.FindStringSubmatch(l); m != nil && m[1] == name {
+			return true
+		}
+	}
+	return false
 }
